@@ -55,7 +55,24 @@ pub const CORPUS: &[(&str, &str, &str, &[&str])] = &[
     ("host-in-args", "(define r33 (+ (host-op 1) (loop 5 0) (host-op (host-op 2))))\nr33", "21", &["r33"]),
     ("host-in-transduce", "(define r34 (transduce (range 0 6) (mapping (lambda (x) (host-op x))) (into-list)))\nr34", "(1 2 3 4 5 6)", &["r34"]),
     ("wind-in-handler-in-map", "(define wlog3 '())\n(define r35 (map (lambda (x) (with-handler (lambda (e) -1) (dynamic-wind (lambda () (set! wlog3 (cons x wlog3))) (lambda () (if (= x 2) (error \"two\") (* x 10))) (lambda () (set! wlog3 (cons (- 0 x) wlog3)))))) (list 1 2 3)))\n(list r35 (length wlog3))", "((10 -1 30) 6)", &["wlog3", "r35"]),
+    ("deep-native-callback", "(define (cb1 x) (+ 1 (host-op x)))\n(define (cb2 x) (+ 1 (cb1 x)))\n(define (run-tr n) (+ 1 (apply + (transduce (range 0 n) (mapping (lambda (x) (cb2 x))) (into-list)))))\n(define r40 (with-handler (lambda (e) -1) (run-tr 4)))\nr40", "19", &["cb1", "cb2", "run-tr", "r40"]),
+    ("handler-in-function-around-native", "(define (cb3 x) (+ 2 (host-op x)))\n(define (run-tr2 n) (+ 1 (apply + (transduce (range 0 n) (filtering (lambda (x) (> (cb3 x) 0))) (mapping (lambda (x) (cb3 x))) (into-list)))))\n(define (guarded n) (with-handler (lambda (e) (loop 3 0)) (run-tr2 n)))\n(define r41 (list (guarded 3) (guarded 2)))\nr41", "(13 8)", &["cb3", "run-tr2", "guarded", "r41"]),
+    ("error-in-native-callback-caught", "(define (bad1 x) (+ 1 (car x)))\n(define (bad2 x) (+ 1 (bad1 x)))\n(define (run-bad) (+ 1 (apply + (transduce (list 1 2 3) (mapping (lambda (x) (+ 1 (bad2 x)))) (into-list)))))\n(define r42 (list (with-handler (lambda (e) 'caught) (run-bad)) (loop 4 0)))\nr42", "(caught 10)", &["bad1", "bad2", "run-bad", "r42"]),
+    ("sort-deep-comparator", "(define (lt2 a b) (< (host-op a) (host-op b)))\n(define (lt1 a b) (lt2 a b))\n(define (sorted xs) (sort xs (lambda (a b) (lt1 a b))))\n(define r43 (car (sorted (list 3 1 2))))\nr43", "1", &["lt2", "lt1", "sorted", "r43"]),
     ("callcc-reenter", "(define r36 (let ((k #f) (n 0)) (let ((v (+ 100 (call/cc (lambda (c) (set! k c) 0))))) (if (< n 3) (begin (set! n (+ n 1)) (k n)) (list v n)))))\nr36", "(103 3)", &["r36"]),
+];
+
+/// Programs that fail by themselves: (name, the evaluations they consist of).
+/// At least one evaluation must return an error; none may panic; afterwards
+/// the engine must be usable.
+pub const FAILING: &[(&str, &[&str])] = &[
+    ("non-procedure-exception-handler", &["(define (h47 a b c) (call-with-exception-handler 5 (lambda () (error \"boom\"))))", "(h47 7 8 9)"]),
+    ("builtin-as-exception-handler", &["(define (h48 a b c) (call-with-exception-handler car (lambda () (error \"boom\"))))", "(h48 7 8 9)"]),
+    ("uncaught-error-in-deep-native-callback", &["(define (bad3 x) (+ 1 (car x)))\n(define (bad4 x) (+ 1 (bad3 x)))\n(define (run-bad2 a b) (+ a b (apply + (transduce (list 1 2 3) (mapping (lambda (x) (+ 1 (bad4 x)))) (into-list)))))", "(run-bad2 1 2)"]),
+    ("error-in-sort-comparator-in-function", &["(define (cmp-bad a b) (< (car a) b))\n(define (sort-bad x y) (+ x y (car (sort (list 3 1 2) (lambda (a b) (cmp-bad a b))))))", "(sort-bad 1 2)"]),
+    ("error-in-argument-of-deep-call", &["(define (f49 a b c) (+ a b c))\n(define (g49 x) (f49 x (f49 1 2 (car x)) 3))", "(+ 1 (g49 5))"]),
+    ("error-inside-dynamic-wind-in-function", &["(define (w50 a) (dynamic-wind (lambda () 0) (lambda () (+ a (car a))) (lambda () 0)))", "(list 1 2 (w50 3))"]),
+    ("continuation-from-failed-evaluation", &["(define k51 #f)", "(+ 1 (call/cc (lambda (c) (set! k51 c) (error \"boom\"))))", "(k51 10)"]),
 ];
 
 static HOST_CALLS: AtomicU64 = AtomicU64::new(0);
@@ -125,6 +142,11 @@ impl C07 {
                 }
             }
         }
+        for (fi, _) in FAILING.iter().enumerate() {
+            for jit in [false, true] {
+                plan.push(Planned { prog: fi, jit, kind: "own", at: 0 });
+            }
+        }
         *PLAN.lock().unwrap() = plan;
     }
 }
@@ -153,12 +175,12 @@ fn check_engine_usable(engine: &mut steel::steel_vm::engine::Engine, what: &str)
     }
     // probe: new definitions work, old ones are intact, mutable state is intact
     vmh::set_context("probe");
-    match vmh::eval(engine, "(define probe-x 5)\n(list (+ probe-x 1) (base-f 1) base-a (unbox base-box) (mut-vector-ref base-vec 2) (loop 4 0))") {
+    match vmh::eval(engine, "(define probe-x 5)\n(let ((pa (base-f 1)) (pb (base-f 2))) (list (+ probe-x 1) pa pb base-a (unbox base-box) (mut-vector-ref base-vec 2) (loop 4 0)))") {
         Ok(v) => {
-            if v.last().map(|s| s.as_str()) != Some("(6 11 10 77 3 10)") {
+            if v.last().map(|s| s.as_str()) != Some("(6 11 12 10 77 3 10)") {
                 report::violation(
                     "C07/probe-wrong-value",
-                    format!("{}: probe evaluated to {:?}, expected (6 11 10 77 3 10)", what, v.last()),
+                    format!("{}: probe evaluated to {:?}, expected (6 11 12 10 77 3 10)", what, v.last()),
                 );
             }
         }
@@ -166,7 +188,39 @@ fn check_engine_usable(engine: &mut steel::steel_vm::engine::Engine, what: &str)
     }
 }
 
+fn run_own(engine: &mut steel::steel_vm::engine::Engine, p: &Planned, seq: usize) {
+    let prog = &FAILING[p.prog];
+    let what = format!("[{}] {} ({})", seq, prog.0, if p.jit { "jit" } else { "nojit" });
+    vmh::set_context(&format!("own/{}", prog.0));
+    vmh::set_interrupt_at(None);
+    HOST_FAIL_AT.store(u64::MAX, Ordering::SeqCst);
+    let mut failed = 0;
+    for piece in prog.1 {
+        if vmh::eval(engine, piece).is_err() {
+            failed += 1;
+        }
+        let st = engine.verif_stack_state();
+        if st.stack != 0 || st.frames != 0 {
+            report::violation(
+                &format!("C07/stack-residue/own/{}", prog.0),
+                format!("{}: after {:?} returned the stacks are not empty: {:?}", what, piece, st),
+            );
+        }
+    }
+    report::fault("own-error");
+    if failed == 0 {
+        report::violation(
+            &format!("C07/failing-program-succeeded/{}", prog.0),
+            format!("{}: no evaluation of a program that must fail returned an error", what),
+        );
+    }
+    check_engine_usable(engine, &what);
+}
+
 fn run_faulted(engine: &mut steel::steel_vm::engine::Engine, p: &Planned, seq: usize) {
+    if p.kind == "own" {
+        return run_own(engine, p, seq);
+    }
     let prog = &CORPUS[p.prog];
     let what = format!("[{}] {} {}@{} ({})", seq, prog.0, p.kind, p.at, if p.jit { "jit" } else { "nojit" });
     let src = program_with_fault(p.prog, p.kind, p.at);
@@ -285,7 +339,9 @@ impl Scenario for C07 {
             vmh::MAIN_DISPATCHES.store(0, Ordering::SeqCst);
             match vmh::eval(&mut engine, CORPUS[pi as usize].1) {
                 Ok(v) if v.last().map(|s| s.as_str()) == Some(CORPUS[pi as usize].2) => {}
-                other => report::harness_error(format!("corpus program {} does not give its value: {:?}", CORPUS[pi as usize].0, other)),
+                // the planned runs re-run the program cleanly and report this as a
+                // violation with a replay file; the plan only needs the step count
+                other => report::set_extra("calibration_mismatch", json!(format!("{:?}", other))),
             }
             report::set_extra("dispatches", json!(vmh::MAIN_DISPATCHES.load(Ordering::SeqCst)));
             report::set_extra("host_calls", json!(HOST_CALLS.load(Ordering::SeqCst)));
@@ -304,6 +360,7 @@ impl Scenario for C07 {
                     "host" => "host",
                     "compile" => "compile",
                     "runtime" => "runtime",
+                    "own" => "own",
                     _ => "interrupt",
                 },
                 at: o["at"].as_u64().unwrap_or(0),
@@ -314,7 +371,8 @@ impl Scenario for C07 {
         if spec.overrides.is_null() {
             let extra = rng.below(4);
             for _ in 0..extra {
-                let cands: Vec<&Planned> = plan.iter().filter(|p| p.jit == first.jit).collect();
+                let own = rng.chance(1, 4);
+                let cands: Vec<&Planned> = plan.iter().filter(|p| p.jit == first.jit && (p.kind == "own") == own).collect();
                 seq.push((*rng.pick(&cands)).clone());
             }
         } else {
@@ -326,6 +384,7 @@ impl Scenario for C07 {
                         "host" => "host",
                         "compile" => "compile",
                         "runtime" => "runtime",
+                        "own" => "own",
                         _ => "interrupt",
                     },
                     at: o["at"].as_u64().unwrap_or(0),
@@ -334,7 +393,7 @@ impl Scenario for C07 {
         }
         let w = json!({
             "jit": first.jit,
-            "seq": seq.iter().map(|p| json!({"prog": p.prog, "name": CORPUS[p.prog].0, "kind": p.kind, "at": p.at})).collect::<Vec<_>>(),
+            "seq": seq.iter().map(|p| json!({"prog": p.prog, "name": if p.kind == "own" { FAILING[p.prog].0 } else { CORPUS[p.prog].0 }, "kind": p.kind, "at": p.at})).collect::<Vec<_>>(),
         });
         report::set_workload(w.clone());
         if spec.gen_only {
@@ -380,7 +439,7 @@ impl Scenario for C07 {
     }
 
     fn rule(&self) -> String {
-        format!("fault enumeration: {} corpus programs x 2 tiers x (an interrupt at every dispatch step + a host-function error at every host call + a failing form (compile-time and run-time) spliced at every form position); the plan has {} entries and run i executes entry i mod plan (all entries are executed once in the quick tier), followed by 0-3 further faulted evaluations of random programs on the same engine, each followed by stack check, probe program, definition check and a clean re-run; non-trivial = every run; distinct = distinct (workload, event trace)", CORPUS.len(), PLAN.lock().unwrap().len())
+        format!("fault enumeration: {} corpus programs x 2 tiers x (an interrupt at every dispatch step + a host-function error at every host call + a failing form (compile-time and run-time) spliced at every form position), plus {} programs that fail by themselves (non-procedure handlers, errors deep inside callbacks of native procedures called from functions, a continuation kept from a failed evaluation); the plan has {} entries and run i executes entry i mod plan (all entries are executed once in the quick tier), followed by 0-3 further faulted evaluations of random programs on the same engine, each followed by stack check, probe program, definition check and a clean re-run; non-trivial = every run; distinct = distinct (workload, event trace)", CORPUS.len(), FAILING.len(), PLAN.lock().unwrap().len())
     }
     fn assumptions(&self) -> Vec<String> {
         vec![
